@@ -31,7 +31,9 @@ Reset(c) ==
 IIn == [f |-> Ev.i.f, n |-> Ev.i.n, cbp |-> Ev.i.cbp, mbf |-> Ev.i.mbf, nonce |-> Ev.i.nonce, life |-> Ev.i.life,
         hop |-> Ev.i.hop, hints |-> Ev.i.hints, nh |-> Ev.i.nh, dtok |-> Ev.i.dtok, dnl |-> Ev.i.dnl]
 Dins == { [name |-> Ev.dins[x].name, nonce |-> Ev.dins[x].nonce] : x \in 1..Len(Ev.dins) }
-IOut == [S |-> SeqToSet(Ev.o.S), csn |-> Ev.o.csn, ex |-> Ev.o.ex, dins |-> Dins]
+\* the cache answered iff the step was not refused early / as a duplicate and the requester's in-record is gone afterwards
+IOut == [S |-> SeqToSet(Ev.o.S), csn |-> Ev.o.csn, ex |-> Ev.o.ex, dins |-> Dins,
+         hit |-> (IStage(IIn) = "cs?" /\ (~Ev.o.inrec \/ Ev.o.csn # NoName))]
 DIn == [f |-> Ev.i.f, n |-> Ev.i.n, fresh |-> Ev.i.fresh, wire |-> Ev.i.wire, tk |-> Ev.i.tk]
 DOut == [D |-> [x \in 1..Len(Ev.o.D) |-> [face |-> Ev.o.D[x].face, tok |-> Ev.o.D[x].tok]], dins |-> Dins]
 KeySet(s) == { [name |-> s[x].name, cbp |-> s[x].cbp, mbf |-> s[x].mbf, hint |-> s[x].hint] : x \in 1..Len(s) }
@@ -87,6 +89,13 @@ T_C02hop == [][IsI => \A x \in 1..Len(Ev.oi) : Ev.oi[x].hop = Hop1(Ev.i.hop)]_tv
 T_C02noI == [][IsD => Ev.oi = 0]_tvars
 \* each chosen face receives the Interest exactly once
 T_C02once == [][IsI => \A x, y \in 1..Len(Ev.oi) : x # y => Ev.oi[x].face # Ev.oi[y].face]_tvars
+\* loop prevention: once an entry is satisfied or reaped, the nonces it sent upstream are recorded as dead
+\* (of at least one matched entry: the multi-match branch of the code records those of the first entry only)
+OutDead(k, nmOf) == { [name |-> nmOf, nonce |-> pit[k].outr[g].nonce] : g \in DOMAIN pit[k].outr }
+T_C02dead == [][/\ (IsD /\ ~DEarly(DIn) /\ Matched(DIn.n, DIn.tk) # {}) =>
+                      \E k \in Matched(DIn.n, DIn.tk) : OutDead(k, DIn.n) \subseteq DOMAIN dnl'
+                /\ (l <= Len(Trace) /\ Ev.ev = "U") =>
+                      \A k \in KeySet(Ev.R) \cap DOMAIN pit : OutDead(k, k.name) \subseteq DOMAIN dnl']_tvars
 T_C02 == P_C02 /\ T_C02hop /\ T_C02noI /\ T_C02once
 
 (* ---------------- C07 ---------------- *)
